@@ -16,7 +16,7 @@ use log4rs::append::rolling_file::policy::compound::roll::delete::DeleteRoller;
 use serde_json::json;
 
 /// (name, value) — values are '$'-free as the property requires.
-const VARS: [(&str, &str); 10] = [
+const VARS: [(&str, &str); 13] = [
     ("L4V_G", "g{}h"),
     ("L4V_A", "plain"),
     ("L4V_B", ""),
@@ -27,6 +27,9 @@ const VARS: [(&str, &str); 10] = [
     ("L4V.dot_1", "dotted"),
     ("_L4V", "underscore"),
     ("L4Vé", "nonascii-name"),
+    ("L4V_DÏR", "umlaut-inside"),
+    ("Éa", "nonascii-first"),
+    ("日本_1", "cjk-name"),
 ];
 const UNSET: [&str; 3] = ["L4V_UNSET", "L4V_NOPE.x", "é_unset"];
 
@@ -324,6 +327,35 @@ fn changing_value_cases(rep: &mut Report) {
                 break;
             }
         }
+    }
+    // one long-lived rolling appender: its log file is where the variable pointed when it was built, and stays there
+    {
+        let sc = Scratch::new("c19app");
+        std::env::set_var(NAME, "one");
+        let raw = format!("{}/$ENV{{{}}}/app.log", sc.path.to_str().unwrap(), NAME);
+        let roller = FixedWindowRoller::builder().build(&format!("{}/arch.{{}}.log", sc.path.to_str().unwrap()), 2);
+        let app = roller.ok().and_then(|r| RollingFileAppender::builder()
+            .encoder(Box::new(log4rs::encode::pattern::PatternEncoder::new("{m}{n}")))
+            .build(&raw, Box::new(CompoundPolicy::new(Box::new(SizeTrigger::new(40)), Box::new(r)))).ok());
+        if let Some(app) = app {
+            use log4rs::append::Append;
+            let mut ok = true;
+            for (k, v) in ["one", "two", "two", "", "three"].iter().enumerate() {
+                std::env::set_var(NAME, v);
+                let r = trap::catch(|| app.append(&log::Record::builder().level(log::Level::Info).args(format_args!("record number {} of the long-lived appender", k)).build()));
+                ok &= matches!(r, Ok(Ok(())));
+            }
+            drop(app);
+            let files: Vec<String> = dir_files(&sc.path).keys().cloned().collect();
+            rep.case_enumerated(true);
+            rep.count("locations_compared", 1);
+            let stray: Vec<&String> = files.iter().filter(|f| !(f.starts_with("one/") || f.starts_with("arch."))).collect();
+            if !ok || !stray.is_empty() || !files.iter().any(|f| f == "arch.1.log") {
+                rep.violation("C19:wrong-location:value-changed-while-the-appender-lives", json!({"input": format!("$ENV{{{}}}/app.log", NAME),
+                    "history_of_the_variable": ["one (build)", "one", "two", "two", "", "three"], "every_append_ok": ok, "files_present": files}));
+            }
+        }
+        std::env::remove_var(NAME);
     }
     // one long-lived roller whose pattern refers to the variable: every roll goes where the variable points at
     // the time of the roll (unset: the reference stays as it is)
